@@ -126,7 +126,10 @@ def _run_base(ctx):
             if not g.dominated_by(r, [ust]):
                 # early returns (use-local/use-remote shortcuts) must return an input with status 0
                 ok = isinstance(r.value, ast.Tuple) and const_val(r.value.elts[1]) == 0 and dotted(r.value.elts[0]) in [a.arg for a in fn.args.args]
-                ctx.inst('R07.2', '%s:%s' % (PP, name), repo.norm(r), ok, 'input returned unchanged with status 0' if ok else 'early return is not (input, 0)', r)
+                deleg = isinstance(r.value, ast.Call) and ('func', PP + ':builtin_merge_render') in cg.resolve(r.value.func, fn) and \
+                    [dotted(a) for a in r.value.args[:3]] == [a.arg for a in fn.args.args[:3]]
+                ctx.inst('R07.2', '%s:%s' % (PP, name), repo.norm(r), ok or deleg, 'input returned unchanged with status 0' if ok else
+                         ('delegates to the built-in renderer with the same three texts (its (text, status) pairs are checked above)' if deleg else 'early return is not (input, 0)'), r)
                 continue
             stores = [s for v, k, s in d.get(sv, [])] if sv else []
             ok = isinstance(r.value, ast.Tuple) and dotted(r.value.elts[1]) == sv and len(stores) == 1
@@ -420,3 +423,7 @@ def run(ctx):
                  'this site counts lines differently from the others: line-keyed patches of the merged source land on the wrong line (a line is dropped, another duplicated)', node)
     from ..trim import check_trims
     check_trims(ctx, 'R07.9', ['nbdime.merging.'])
+
+
+from .extra import with_extra  # noqa: E402
+run = with_extra('C07', run)
